@@ -41,25 +41,25 @@ func generate(prop string, seed uint64, i int) *Scenario {
 const kmvK = 4096
 
 type summary struct {
-	Prop        string         `json:"prop"`
-	From, N     int            `json:"from"`
-	Runs        int            `json:"runs"`
-	FaultFree   int            `json:"fault_free_runs"`
-	Faulty      int            `json:"faulty_runs"`
-	Steps       int64          `json:"steps"`
-	Choices     int64          `json:"choices"`
-	SimNS       int64          `json:"sim_ns"`
-	Probes      map[string]int `json:"probes"`
-	Faults      map[string]int `json:"faults"`
-	Distinct    int            `json:"distinct_nontrivial"` // distinct interleaving ids among runs in which a probe fired
-	StatesKMV   []uint64       `json:"states_kmv"`          // the kmvK smallest abstract-state hashes (distinct-count sketch)
-	StatesSeen  int            `json:"states_seen"`         // distinct abstract states seen by this worker
-	Reasons     map[string]int `json:"reasons"`
-	Installs    int64          `json:"installs"`
-	WallS       float64        `json:"wall_s"`
-	Samples     []any          `json:"samples,omitempty"`
-	Foreign     map[string]int `json:"foreign_oracle_hits,omitempty"`
-	KnownHits   map[string]int `json:"known_hits,omitempty"`
+	Prop       string         `json:"prop"`
+	From, N    int            `json:"from"`
+	Runs       int            `json:"runs"`
+	FaultFree  int            `json:"fault_free_runs"`
+	Faulty     int            `json:"faulty_runs"`
+	Steps      int64          `json:"steps"`
+	Choices    int64          `json:"choices"`
+	SimNS      int64          `json:"sim_ns"`
+	Probes     map[string]int `json:"probes"`
+	Faults     map[string]int `json:"faults"`
+	Distinct   int            `json:"distinct_nontrivial"` // distinct interleaving ids among runs in which a probe fired
+	StatesKMV  []uint64       `json:"states_kmv"`          // the kmvK smallest abstract-state hashes (distinct-count sketch)
+	StatesSeen int            `json:"states_seen"`         // distinct abstract states seen by this worker
+	Reasons    map[string]int `json:"reasons"`
+	Installs   int64          `json:"installs"`
+	WallS      float64        `json:"wall_s"`
+	Samples    []any          `json:"samples,omitempty"`
+	Foreign    map[string]int `json:"foreign_oracle_hits,omitempty"`
+	KnownHits  map[string]int `json:"known_hits,omitempty"`
 }
 
 func main() {
